@@ -7,6 +7,7 @@ Parses every module under <repo>/xgi, resolves relative imports, star imports th
 from __future__ import annotations
 
 import ast
+import copy
 import hashlib
 import os
 from dataclasses import dataclass, field
@@ -161,6 +162,70 @@ class Repo:
                 self.modules[modname] = mi
         for mi in self.modules.values():
             self._index(mi)
+        for mi in self.modules.values():
+            for ci in mi.classes.values():
+                self._index_class_aliases(mi, ci)
+
+    def _index_class_aliases(self, mi: "ModuleInfo", ci: "ClassInfo"):
+        """Class-level bindings that create methods without a `def` in the class body:
+            name = other_method                 the same function under a second name
+            name = factory(..., other_method)   a closure returned by a module-level factory
+        Both bypass an instance-level shadow of `other_method` (the function object is captured, not looked up through
+        the instance), so they are modelled as methods of their own: a renamed copy of the aliased def, or the factory's
+        returned closure with the factory's parameters replaced by the arguments of the call (a captured method becomes
+        the direct call `Class.other_method(self, ...)`)."""
+        for sub in ci.node.body:
+            if not (isinstance(sub, ast.Assign) and len(sub.targets) == 1 and isinstance(sub.targets[0], ast.Name)):
+                continue
+            tname = sub.targets[0].id
+            if tname in ci.methods:
+                continue
+            v = sub.value
+            new = None
+            if isinstance(v, ast.Name) and v.id in ci.methods:
+                new = copy.deepcopy(ci.methods[v.id].node)
+            elif isinstance(v, ast.Call) and isinstance(v.func, ast.Name) and not v.keywords:
+                fac = mi.functions.get(v.func.id)
+                if fac is None:
+                    tgt = mi.imports.get(v.func.id)
+                    if tgt and tgt[0] == "obj" and tgt[1] in self.modules:
+                        fac = self.modules[tgt[1]].functions.get(tgt[2])
+                if fac is None:
+                    continue
+                nested_ids = {id(x) for d in fac.node.body if isinstance(d, (ast.FunctionDef, ast.AsyncFunctionDef, ast.ClassDef)) for x in ast.walk(d)}
+                rets = [r.value for r in ast.walk(fac.node) if isinstance(r, ast.Return) and r.value is not None and id(r) not in nested_ids]
+                inner = [d for d in fac.node.body if isinstance(d, (ast.FunctionDef, ast.AsyncFunctionDef))]
+                if len(rets) != 1 or not isinstance(rets[0], ast.Name) or not any(d.name == rets[0].id for d in inner):
+                    continue
+                g = next(d for d in inner if d.name == rets[0].id)
+                fparams = [a.arg for a in fac.node.args.posonlyargs + fac.node.args.args]
+                if len(v.args) > len(fparams) or any(isinstance(a, ast.Starred) for a in v.args):
+                    continue
+                binding = {}
+                for p_, a in zip(fparams, v.args):
+                    if isinstance(a, ast.Name) and a.id in ci.methods:
+                        binding[p_] = ast.Attribute(value=ast.Name(id=ci.name, ctx=ast.Load()), attr=a.id, ctx=ast.Load())
+                    elif isinstance(a, ast.Constant):
+                        binding[p_] = a
+                new = copy.deepcopy(g)
+                shadow = {a.arg for a in new.args.posonlyargs + new.args.args + new.args.kwonlyargs}
+
+                class Sub(ast.NodeTransformer):
+                    def visit_Name(self, n):
+                        if isinstance(n.ctx, ast.Load) and n.id in binding and n.id not in shadow:
+                            return ast.copy_location(copy.deepcopy(binding[n.id]), n)
+                        return n
+
+                new = Sub().visit(new)
+                ast.fix_missing_locations(new)
+            if new is None:
+                continue
+            new.name = tname
+            new.lineno, new.col_offset = sub.lineno, sub.col_offset
+            new.end_lineno, new.end_col_offset = getattr(sub, "end_lineno", sub.lineno), getattr(sub, "end_col_offset", 0)
+            fi = FunctionInfo(mi, tname, f"{ci.name}.{tname}", new, ci)
+            ci.methods[tname] = fi
+            self._index_nested(fi)
 
     def digest(self):
         if getattr(self, "_digest", None):
